@@ -10,6 +10,7 @@ vf.c09_batch.
 """
 from __future__ import annotations
 
+import functools
 import gc
 import itertools
 import os
@@ -72,26 +73,98 @@ def case(flow: str, w: int, ops: list, m: int, edges: list,
             'params': list(params)}
 
 
+# A family is a list of compact *specs*; the worker expands a spec into its
+# cases (circuits[lo:hi] x variants), so the parent never holds the million
+# case dicts of the thorough tier.
+#   spec = {'family', 'w', 'm', 'edges', 'circ': key of the circuit list,
+#           'lo', 'hi', 'variants': [[placement, layout, params, pre], ...]}
+@functools.lru_cache(maxsize=None)
+def circuits_for(key: tuple) -> list:
+    kind = key[0]
+    if kind == 'seqs':
+        _, w, barriers, oneq, ordered, maxlen, minlen, distinct = key
+        out = [c for c in seqs(alphabet(w, barriers, oneq, ordered),
+                               maxlen, minlen) if multi(c)]
+        if distinct:
+            out = [c for c in out if len(c) < 2 or c[0] != c[1]]
+        return out
+    if kind == 'bigger':
+        _, w = key
+        alpha = alphabet(w, 'few', ordered=False)
+        if w >= 6:
+            alpha = [a for a in alpha if len(a) == 3 or a[0] == 'b' or
+                     a[1:] in ([w - 1, 0, w // 2], [2, 0, 1])]
+        return [c for c in seqs(alpha, 3 if w <= 4 else 2, 2) if multi(c)]
+    if kind == 'escape':
+        _, mode = key
+        w = 6
+        pairs = []
+        for t in itertools.combinations(range(w), 3):
+            if 0 in t:
+                t2 = tuple(q for q in range(w) if q not in t)
+                pairs.append((['g', *t], ['g', *t2]))
+        thirds: list = [None]
+        if mode != 'none':
+            thirds += [['g', a, b]
+                       for a, b in itertools.combinations(range(w), 2)]
+        if mode == 'full':
+            thirds += [['g', *t] for t in itertools.combinations(range(w), 3)]
+            thirds += [['b', 0, 5], ['b', *range(w)]]
+        out = []
+        for g1, g2 in pairs:
+            for third in thirds:
+                if third is None:
+                    out.append([g1, g2])
+                    continue
+                for pos in (2,) if mode == 'after' else (0, 2):
+                    ops = [g1, g2]
+                    ops.insert(pos, third)
+                    out.append(ops)
+        return out
+    raise ValueError(key)
+
+
+def expand(spec: dict) -> list:
+    circs = circuits_for(tuple(spec['circ']))[spec['lo']:spec['hi']]
+    return [
+        case('sabre', spec['w'], ops, spec['m'], spec['edges'], pl, lay, par,
+             pre)
+        for ops in circs for pl, lay, par, pre in spec['variants']
+    ]
+
+
+def specs(family: str, w: int, m: int, edges: list, circ: tuple,
+          variants: list, per: int) -> list:
+    n = len(circuits_for(circ))
+    step = max(1, per // max(1, len(variants)))
+    return [
+        {'family': family, 'w': w, 'm': m, 'edges': edges,
+         'circ': list(circ), 'lo': lo, 'hi': min(n, lo + step),
+         'variants': variants}
+        for lo in range(0, n, step)
+    ]
+
+
+def spec_size(sp: dict) -> int:
+    return (sp['hi'] - sp['lo']) * len(sp['variants'])
+
+
 def fam_small(quick: bool) -> list:
     """Every connected labelled graph on 2..4 vertices x every width x every
     short circuit x every placement pass."""
-    cases = []
+    out = []
     for m in (2, 3, 4):
         for edges in M.labelled_connected_graphs(m):
             for w in range(2, m + 1):
-                alpha = alphabet(w, 'few' if quick else 'all',
-                                 ordered=not (quick and w == 4))
-                ln = 2 if quick else 3
-                if not quick and w == 4:
-                    alpha = alphabet(w, 'few')
-                for ops in seqs(alpha, ln):
-                    if not multi(ops):
-                        continue
-                    for pl in ('greedy', 'trivial', 'static'):
-                        if w == m and pl == 'trivial':
-                            continue      # == greedy (whole machine, sorted)
-                        cases.append(case('sabre', w, ops, m, edges, pl))
-    return cases
+                bar = 'few' if quick or w == 4 else 'all'
+                circ = ('seqs', w, bar, False, not (quick and w == 4),
+                        2 if quick else 3, 1, False)
+                pls = ['greedy', 'trivial', 'static']
+                if w == m:
+                    pls.remove('trivial')   # == greedy (whole machine)
+                out += specs('small-graphs', w, m, edges, circ,
+                             [[pl, 1, DEFAULT, None] for pl in pls], 150)
+    return out
 
 
 def trees4_and_ring() -> list:
@@ -101,40 +174,33 @@ def trees4_and_ring() -> list:
 
 def fam_params(quick: bool) -> list:
     """SABRE parameter grid x layout passes on the sparse 4-vertex graphs."""
-    cases = []
-    graphs = trees4_and_ring()
-    for edges in graphs:
-        for w in (4,):
-            alpha = alphabet(w, 'none', ordered=False)
-            for ops in seqs(alpha, 2 if quick else 3, 2):
-                for p in PARAMS:
-                    for lay in (1, 2):
-                        if p == DEFAULT and lay == 1:
-                            continue
-                        if quick and (lay == 1 or ops[0] == ops[1]):
-                            continue
-                        cases.append(case('sabre', w, ops, 4, edges,
-                                          'greedy', lay, p))
-    return cases
+    out = []
+    variants = []
+    for p in PARAMS:
+        for lay in (1, 2):
+            if (p == DEFAULT and lay == 1) or (quick and lay == 1):
+                continue
+            variants.append(['greedy', lay, p, None])
+    for edges in trees4_and_ring():
+        circ = ('seqs', 4, 'none', False, False, 2 if quick else 3, 2, quick)
+        out += specs('params', 4, 4, edges, circ, variants, 150)
+    return out
 
 
 def fam_blocked(quick: bool) -> list:
     """Input pre-partitioned into blocks of 2-3 by QuickPartitioner."""
-    cases = []
+    out = []
     graphs = [e for e in M.labelled_connected_graphs(4) if len(e) == 3]
     if not quick:
         graphs = M.labelled_connected_graphs(4)
     for edges in graphs:
         for w in (3, 4):
-            alpha = alphabet(w, 'none', oneq=True, ordered=quick is False
-                             or w == 3)
-            for ops in seqs(alpha, 2 if quick or w == 4 else 3):
-                if not multi(ops):
-                    continue
-                for pre in (2, 3):
-                    cases.append(case('sabre', w, ops, 4, edges, 'greedy',
-                                      1, DEFAULT, pre))
-    return cases
+            circ = ('seqs', w, 'none', True, (not quick) or w == 3,
+                    2 if quick or w == 4 else 3, 1, False)
+            out += specs('pre-blocked', w, 4, edges, circ,
+                         [['greedy', 1, DEFAULT, 2], ['greedy', 1, DEFAULT, 3]],
+                         150)
+    return out
 
 
 def fam_escape(quick: bool) -> list:
@@ -142,66 +208,35 @@ def fam_escape(quick: bool) -> list:
     pop the leading swaps -> uphill swaps): two disjoint 3-qudit gates in
     the front layer of a tree with two hubs (found by a design-time search;
     single far-apart gates on lines never reach it)."""
-    cases = []
-    graphs = [(6, DOUBLE_STAR)]
+    out = []
+    graphs = [(6, DOUBLE_STAR, 'after' if quick else 'full')]
     if not quick:
-        graphs += [(6, e) for e in M.unlabelled_connected_graphs(6)
+        graphs += [(6, e, 'both') for e in M.unlabelled_connected_graphs(6)
                    if len(e) == 5 and sorted(e) != sorted(DOUBLE_STAR)]
-        graphs += [(7, e) for e in M.unlabelled_connected_graphs(7)
+        graphs += [(7, e, 'none') for e in M.unlabelled_connected_graphs(7)
                    if len(e) == 6]
-    for m, edges in graphs:
-        w = 6
-        pairs = []
-        for t in itertools.combinations(range(w), 3):
-            if 0 in t:
-                t2 = tuple(q for q in range(w) if q not in t)
-                pairs.append((['g', *t], ['g', *t2]))
-        thirds: list = [None] + [['g', a, b] for a, b in
-                                 itertools.combinations(range(w), 2)]
-        if not quick and m == 6 and edges == DOUBLE_STAR:
-            thirds += [['g', *t] for t in itertools.combinations(range(w), 3)]
-            thirds += [['b', 0, 5], ['b', *range(w)]]
-        for g1, g2 in pairs:
-            for third in thirds:
-                if third is not None and m == 7:
-                    continue
-                for pos in ((0, 2) if not quick else (2,)) \
-                        if third is not None else (2,):
-                    ops = [g1, g2]
-                    if third is not None:
-                        ops.insert(pos, third)
-                    for p in PARAMS:
-                        for lay in (0, 1) if quick else (0, 1, 2):
-                            cases.append(case(
-                                'sabre', w, ops, m, edges,
-                                'trivial' if m == w else 'greedy', lay, p,
-                            ))
-    return cases
+    for m, edges, mode in graphs:
+        variants = [
+            ['trivial' if m == 6 else 'greedy', lay, p, None]
+            for p in PARAMS for lay in ((0, 1) if quick else (0, 1, 2))
+        ]
+        out += specs('escape', 6, m, edges, ('escape', mode), variants, 60)
+    return out
 
 
 def fam_bigger() -> list:
     """Thorough: the 21 connected graphs on 5 vertices (one per isomorphism
     class), line/ring/star on 6-7; machines larger than the circuit."""
-    cases = []
+    out = []
     graphs = [(5, e) for e in M.unlabelled_connected_graphs(5)]
     for m in (6, 7):
         graphs += [(m, M.line(m)), (m, M.ring(m)), (m, M.star(m))]
+    variants = [['greedy', 1, DEFAULT, None], ['static', 1, DEFAULT, None],
+                ['greedy', 2, [0.5, 0, False], None]]
     for m, edges in graphs:
         for w in (3, 4, 5) if m == 5 else (4, m):
-            alpha = alphabet(w, 'few', ordered=False)
-            if w >= 6:
-                alpha = [a for a in alpha if len(a) == 3 or a[0] == 'b' or
-                         a[1:] in ([w - 1, 0, w // 2], [2, 0, 1])]
-            ln = 3 if w <= 4 else 2
-            for ops in seqs(alpha, ln, 2):
-                if not multi(ops):
-                    continue
-                for pl in ('greedy', 'static'):
-                    cases.append(case('sabre', w, ops, m, edges, pl, 1,
-                                      DEFAULT))
-                cases.append(case('sabre', w, ops, m, edges, 'greedy', 2,
-                                  [0.5, 0, False]))
-    return cases
+            out += specs('bigger', w, m, edges, ('bigger', w), variants, 60)
+    return out
 
 
 def pam_barrier_scripts(w: int, k: int) -> list:
@@ -261,24 +296,21 @@ def fam_pam(quick: bool) -> list:
         for ops in pam_barrier_scripts(4, 3):
             if ops[-1][1:] == [0, 1]:         # final pair fixed: budget
                 cases.append(case('pam', 4, ops, 4, M.star(4)))
-        three = [
-            [['g', 0, 2], ['g', 1, 0]],
-            [['g', 2, 0, 1]],
-            [['g', 0, 1], ['g', 1, 2], ['g', 2, 0]],
-        ]
-        for ops in three:
-            for m, edges in m3[:3]:
-                cases.append(case('pam3', 3, ops, m, edges))
-        for ops in ([['g', 0, 1], ['g', 2, 3], ['g', 1, 2]],
-                    [['g', 0, 1, 2], ['b', 0, 1, 2, 3], ['g', 1, 3]]):
-            for m, edges in m4[:2]:
-                cases.append(case('pam3', 4, ops, m, edges))
+        # a block of 3 qudits costs minutes of synthesis on one core: three
+        # cases only, each its own work item
+        cases.append(case('pam3', 3, [['g', 0, 2], ['g', 1, 0]], 3,
+                          M.line(3)))
+        cases.append(case('pam3', 3, [['g', 2, 0, 1]], 3, M.line(3)))
+        cases.append(case('pam3', 3, [['g', 0, 1], ['g', 1, 2], ['g', 2, 0]],
+                          4, M.star(4)))
     return cases
 
 
 # ----------------------------------------------------------------- worker
 def _work(item: tuple) -> dict:
     family, rank0, cases, seed = item
+    if isinstance(cases, dict):
+        cases = expand(cases)
     _, data = run_workflow(Circuit(1), [JudgeBatch(cases, seed)])
     agg: dict[str, Any] = {
         'family': family, 'runs': 0, 'nontrivial': 0, 'outcomes': {},
@@ -335,26 +367,27 @@ def run(ctx: Ctx) -> None:
     pam = fam_pam(q)
     pam3 = [dict(c, flow='pam') for c in pam if c['flow'] == 'pam3']
     pam = [c for c in pam if c['flow'] == 'pam']
-    fams = [
-        ('pam-3-qudit-blocks', pam3, 1),
-        ('escape', fam_escape(q), 60),
-        ('pam', pam, 3),
-        ('small-graphs', fam_small(q), 150),
-        ('params', fam_params(q), 150),
-        ('pre-blocked', fam_blocked(q), 150),
-    ]
+    spec_fams = [fam_escape(q), fam_small(q), fam_params(q), fam_blocked(q)]
     if not q:
-        fams.append(('bigger', fam_bigger(), 60))
+        spec_fams.append(fam_bigger())
     items: list = []
     planned: dict[str, int] = {}
+    items += _items('pam-3-qudit-blocks', pam3, ctx.seed, 1)
+    items += _items('pam', pam, ctx.seed, 3)
+    planned['pam-3-qudit-blocks'] = len(pam3)
+    planned['pam'] = len(pam)
+    for fam_specs in spec_fams:
+        # simplest circuits of every graph before longer ones of any graph
+        fam_specs.sort(key=lambda sp: (sp['lo'], sp['m'], sp['w'],
+                                       len(sp['edges'])))
+        for i, sp in enumerate(fam_specs):
+            planned[sp['family']] = planned.get(sp['family'], 0) + \
+                spec_size(sp)
+            items.append((sp['family'], sp['lo'], sp, ctx.seed))
     only = os.environ.get('VERIF_FAMILIES')          # development aid
     if only:
-        fams = [f for f in fams if f[0] in only.split(',')]
+        items = [i for i in items if i[0] in only.split(',')]
         ctx.cap('VERIF_FAMILIES=' + only + ': families restricted by hand')
-    for name, cases, per in fams:
-        planned[name] = len(cases)
-        its = _items(name, cases, ctx.seed, per)
-        items += its
     # families advance side by side (each simplest-first) so that a time cap
     # leaves every family with a completed prefix
     groups: dict[str, list] = {}
@@ -433,7 +466,8 @@ def run(ctx: Ctx) -> None:
     if reached == 0 and 'escape' in fam:
         ctx.cov['escape_family_vacuous'] = True
         print('[C09] warning: the targeted family never reached the SABRE '
-              'local-minimum escape branch (vacuous)')
+              'local-minimum escape branch (vacuous)'
+              + (' -- this run was cut short by a cap' if ctx.caps else ''))
     ctx.cov['rule'] = (
         'every (graph, width, circuit, placement, layout passes, SABRE '
         'parameters) of the stated families, distinct by construction; '
